@@ -31,6 +31,23 @@ def gen_cases(ctx, wmax, hmax, quants):
     return cases
 
 
+def big_picture(w, h):
+    """a Sorenson intra picture of flat grey, every macroblock INTRA with no coefficients (53 bits each)"""
+    b = S.Bits()
+    b.extend(S.sorenson_header(0, 1, (w, h), "I", 0, 7))
+    mb = S.Bits().code("1").code("0011")
+    for _ in range(6):
+        mb.put(64, 8)
+    n = ((w + 15) // 16) * ((h + 15) // 16)
+    b.b.extend(mb.b * n)
+    return b.to_bytes()
+
+
+# sizes whose sample counts are beyond what the model side is run on (crate only): around 2^16, and - area above 2^24,
+# where a sample count computed in single precision is no longer exact - odd x odd and extreme aspect ratios
+BIG_SIZES = [(255, 257), (1023, 65), (65, 1023), (4097, 4097), (65535, 257), (257, 65535), (8193, 2049), (65535, 1), (1, 65535)]
+
+
 def shape_only(toks):
     """what C13 speaks about: result classes, headers, plane sizes and output lengths - not sample values (content hashes
     are dropped, so a change of the colour formula, of the filter kernel or of the transform is not this check's business)"""
@@ -81,6 +98,34 @@ def run(ctx):
     ctx.count("pipeline (decode -> deblock x3 -> RGBA; sizes 1..40 x 1..40)", len(cases), nontriv,
               sample={"w": 17, "h": 9, "ops": ["D:<intra picture>", "X"]}, exhaustive=True,
               note="every width x height 1..40 (Sorenson custom sizes) with quantizers %s in rotation, plus standard-mode custom sizes with a predicted picture" % quants)
+    # large pictures, implementation only: the size relations of theorem C13_new_picture_planes at sizes no model run reaches
+    big = BIG_SIZES if thorough else BIG_SIZES[:4] + BIG_SIZES[-2:]
+    bcases = [(900000 + k, 1, ["G" + D(big_picture(w, h))[1:], "X"]) for k, (w, h) in enumerate(big)]
+    bio = decsuite.run_impl(ctx, "c13big", bcases)
+    bn = set()
+    for k, (w, h) in enumerate(big):
+        toks = bio.get(900000 + k, ["missing"])
+        last = toks[-1]
+        problem = None
+        if not last.startswith("pipe:ok:"):
+            problem = "pipeline -> %s" % last[:60]
+        elif int(last.split(":")[2]) != 4 * w * h:
+            problem = "RGBA output has %s bytes, expected %d" % (last.split(":")[2], 4 * w * h)
+        else:
+            t = parse_tok(toks[-2])
+            m = __import__("re").search(r" (\d+)x(\d+)/(\d+) ", t["last"] or "")
+            if not m or (int(m.group(1)), int(m.group(2)), int(m.group(3))) != (w, h, (w + 1) // 2):
+                problem = "decoded picture reports %s" % (m.groups() if m else None,)
+        if problem:
+            ctx.violation({"kind": "pipeline-big", "class_key": problem[:20], "options": 1, "width": w, "height": h, "quant": 7,
+                           "spec": "luma w*h, chroma ceil(w/2)*ceil(h/2): deblocking and conversion complete with w*h pixels",
+                           "implementation": problem, "how_to_replay": "./check C13 --replay <this file> rebuilds the flat-grey intra picture of that size"},
+                          "%dx%d (large picture, implementation only): %s" % (w, h, problem))
+            found = True
+        else:
+            bn.add((w, h))
+    ctx.count("pipeline on large pictures (implementation only; flat intra pictures up to 65535 wide/high and above 2^24 samples)", len(big), bn,
+              sample={"w": big[3][0], "h": big[3][1]}, note="sizes %s" % (big,))
     ctx.cov["rule"] = "one picture per size; non-trivial = pipeline completed with 4*w*h bytes, identical in model and implementation; distinct by (w,h,q)"
     ctx.cov["exhaustive"] = True
     if len(broken) > 3:
@@ -95,6 +140,12 @@ def replay(ctx, path):
     common.ensure_runners(ctx)
     if r.get("kind") == "pipeline":
         io = decsuite.run_impl(ctx, "replay", [(0, r["options"], r["ops"])])
+        print("implementation:", " | ".join(t[:80] for t in io[0]))
+        bad = not io[0][-1].startswith("pipe:ok:%d:" % (4 * r["width"] * r["height"]))
+        print("REPRODUCED" if bad else "NOT-REPRODUCED")
+        return 1 if bad else 0
+    if r.get("kind") == "pipeline-big":
+        io = decsuite.run_impl(ctx, "replay", [(0, 1, ["G" + D(big_picture(r["width"], r["height"]))[1:], "X"])])
         print("implementation:", " | ".join(t[:80] for t in io[0]))
         bad = not io[0][-1].startswith("pipe:ok:%d:" % (4 * r["width"] * r["height"]))
         print("REPRODUCED" if bad else "NOT-REPRODUCED")
